@@ -34,13 +34,10 @@ structure St where
   mem : MemStore
   redb : Tables
   abs : AbsStore
-  /-- an unvalidated header has been accepted in this history: the stores' precondition (only
-      validated headers are inserted; decoding validates) is broken from here on -/
-  tainted : Bool
 
 def St.init (mode : Mode) : St :=
   { mode, pool := #[], nextHash := 0, ok := #[], mem := MemStore.new, redb := RedbStore.new,
-    abs := Lumina.Spec.C19.init, tainted := false }
+    abs := Lumina.Spec.C19.init }
 
 def St.verify (s : St) (a b : Hdr) : Bool := (s.ok.getD a.id []).contains b.id
 
@@ -287,7 +284,7 @@ def stepFull (s : St) (line : String) : St × String × String :=
   | "dump" :: _ =>
     let u := s.universe
     let m := dump (fun op => (MemStore.stepWith fixedMem s.verify s.mem op).2) s.verify u s.nextHash
-    let r := dump (fun op => (RedbStore.step s.verify s.redb op).2) s.verify u s.nextHash
+    let r := dump (fun op => (RedbStore.stepL id s.verify s.redb op).2) s.verify u s.nextHash
     let a := dump (fun op => (AbsStore.step s.verify s.abs op).2) s.verify u s.nextHash
     (s, s!"mem ok ; {m} || redb ok ; {r}", s!"ok ; {a}")
   | _ =>
@@ -302,13 +299,12 @@ def stepFull (s : St) (line : String) : St × String × String :=
     | some op =>
       let v := s.verify
       let (mem', rm) := MemStore.stepWith fixedMem v s.mem op
-      let (redb', rr) := RedbStore.step v s.redb op
+      let (redb', rr) := RedbStore.stepL id v s.redb op
       let (abs', ra) := AbsStore.step v s.abs op
-      let s' := { s with mem := mem', redb := redb', abs := abs',
-                         tainted := s.tainted || abs'.hdrs.any (fun h => !h.valid) }
+      let s' := { s with mem := mem', redb := redb', abs := abs' }
       if op.mutating then
         let m := mutPart s (fun o => (MemStore.stepWith fixedMem v s.mem o).2) (fun o => (MemStore.stepWith fixedMem v mem' o).2) rm
-        let r := mutPart s (fun o => (RedbStore.step v s.redb o).2) (fun o => (RedbStore.step v redb' o).2) rr
+        let r := mutPart s (fun o => (RedbStore.stepL id v s.redb o).2) (fun o => (RedbStore.stepL id v redb' o).2) rr
         let a := mutPart s (fun o => (AbsStore.step v s.abs o).2) (fun o => (AbsStore.step v abs' o).2) ra
         (s', s!"mem {m} || redb {r}", a)
       else
